@@ -21,7 +21,7 @@ BURSTS = [1, 2, 16, 17, 40]
 # every shape of payload the API accepts, degenerate ones first
 ZOO = ['', {}, [], b'', [[]], {'k': {}}, 'plain', 'unicode-\u00e9-\u2028-\U0001f600', {'n': None, 't': True, 'f': 1.5, 's': 'x'},
        [1, 'two', [3]], b'\x00', b'\xff' * 40, ' leading and trailing ',
-       list(range(200)), {'key%03d' % i: i for i in range(150)}, 'x' * 300]      # collections / text longer than anything a log line keeps
+       list(range(200)), {'key%03d' % i: i for i in range(150)}, 'x' * 300, {'limit': float('inf'), 'low': [float('-inf'), 1.5]}]      # collections / text longer than anything a log line keeps
 _ZOO_ON = [False]
 
 
